@@ -255,10 +255,21 @@ class Flow:
             if isinstance(tg, ast.Name):
                 if self._is_global(tg.id):
                     self.global_writes.append(s)
-                self._set(tg.id, None, set())
+                # `x op= y` on a name: for a mutable container (set / list / dict / array: |=, &=, -=, ^=, +=, *= are in-place) the object x
+                # refers to - and everything it aliases - is updated in place and x keeps referring to it; for numbers / strings / tuples
+                # it is a rebinding
+                ct, cv = self.expr(ast.copy_location(ast.Name(id=tg.id, ctx=ast.Load()), tg))
+                immutable = ct is not None and ct.name in IMMUTABLE_TYPES
+                if cv and not immutable:
+                    self.mutate(cv, f"augmented assignment {type(s.op).__name__}", s)
+                else:
+                    self._set(tg.id, None, set())
             elif isinstance(tg, ast.Attribute):
                 _, ov = self.expr(tg.value)
                 self.mutate(ov, f"store .{tg.attr}", s)
+                ct, cv = self.expr(ast.copy_location(ast.Attribute(value=tg.value, attr=tg.attr, ctx=ast.Load()), tg))
+                if cv and not (ct is not None and ct.name in IMMUTABLE_TYPES):
+                    self.mutate(cv, f"augmented assignment {type(s.op).__name__}", s)
             elif isinstance(tg, ast.Subscript):
                 _, ov = self.expr(tg.value)
                 self.expr(tg.slice)
